@@ -144,6 +144,20 @@ Fixpoint est_len (rs : list (N * N)) (acc : N) : M (option N) :=
       end
   end.
 
+(* The If-Range gate: the Range header that stays in force, and whether a partial response
+   includes the entity's headers (RFC 7233 section 4.1: iff the client sent no If-Range). *)
+Definition if_range_gate (etag : option bytes) (req : request) : option bytes * bool :=
+  match r_if_range req with
+  | Some ifr =>
+      if starts_with W_SLASH_Q ifr || starts_with DQ ifr then
+        match etag with
+        | Some e => if strong_eq ifr e then (r_range req, false) else (None, true)
+        | None => (None, true)
+        end
+      else (None, true)                               (* date case: never match *)
+  | None => (r_range req, true)
+  end.
+
 Definition serve_model (now_s : N) (ent : entity) (req : request) : M resp :=
   let is_head := beq_bytes (r_meth req) HEAD in
   if negb (beq_bytes (r_meth req) GET) && negb is_head then
@@ -154,18 +168,7 @@ Definition serve_model (now_s : N) (ent : entity) (req : request) : M resp :=
   match parse_modified_hdrs etag req lm with
   | CErr s => Ok {| status := 400; hdrs := []; rplan := PlOnce (Some s) |}
   | COk precondition_failed not_modified =>
-    (* If-Range gate *)
-    let '(range_hdr, include_on_range) :=
-      match r_if_range req with
-      | Some ifr =>
-          if starts_with W_SLASH_Q ifr || starts_with DQ ifr then
-            match etag with
-            | Some e => if strong_eq ifr e then (r_range req, false) else (None, true)
-            | None => (None, true)
-            end
-          else (None, true)                               (* date case: never match *)
-      | None => (r_range req, true)
-      end in
+    let '(range_hdr, include_on_range) := if_range_gate etag req in
     let h0 := [(H_ACCEPT_RANGES, bs "bytes"%string)]
               ++ match lm with
                  | Some m => [(H_DATE, fmt_date now_s); (H_LAST_MODIFIED, fmt_date (N.min (m / NS) now_s))]
